@@ -59,8 +59,45 @@ def describe(lock):
     return d
 
 
+def unlock_fact_check(res, exe=None):
+    """tbb::mutex / tbb::rw_mutex wake sleepers with notify_*_relaxed (no fence before the wait-set is read): the Monitor model is instantiated with FENCE_N = FALSE
+    and CLIENT_SC = the fact 'the releasing write of every unlock / unlock_shared / downgrade is a full operation', probed on the running code (h_locks probe_unlock)"""
+    import json
+    exe = exe or vlib.build_harness('h_locks', ['locks/h_locks.cpp'])
+    p = vlib.sh([exe, 'probe_unlock'], timeout=120)
+    try:
+        f = json.loads([l for l in p.stdout.splitlines() if l.startswith('{')][-1])
+    except Exception:
+        raise vlib.HarnessFailure('unlock probe failed: %s' % (p.stdout + p.stderr)[-1500:])
+    if any(v not in (0, 1) for v in f.values()):
+        raise vlib.HarnessFailure('unlock probe inconclusive: %s' % f)
+    res.extra.setdefault('code_facts', {}).update(f)
+    full = all(f.values())
+    for cfg in ['Monitor_1x1_lock.cfg', 'Monitor_2x1_lock.cfg']:
+        txt = open(os.path.join(SD, cfg)).read().replace('CONSTANT CLIENT_SC = TRUE', 'CONSTANT CLIENT_SC = %s' % ('TRUE' if full else 'FALSE'))
+        gen = 'gen_' + cfg; open(os.path.join(SD, gen), 'w').write(txt)
+        try:
+            r = vlib.model_check(res, SD, 'Monitor', gen, name='Monitor:' + cfg, must_hold=False, deadlock=False, timeout=1500)
+        finally:
+            os.unlink(os.path.join(SD, gen))
+        vlib.tlc_must_hold(r, cfg)
+        if r.violation:
+            if full:
+                raise vlib.HarnessFailure('Monitor model (lock instantiation) violates %s with the default constants' % r.violation)
+            who = ', '.join(k[:-5] for k, v in f.items() if not v)
+            res.violation('locks:tso-model:%s' % r.violation, 'the releasing write of %s is not a full operation (observed on the running code: a plain / release store, no fence before the wait-set is '
+                          'read by notify_*_relaxed); with that fact the TSO model of the sleeping path loses a wake-up: the store is still buffered when the releaser sees an empty wait-set, the '
+                          'only waiter registers, still reads "locked" and sleeps on a free lock (%s violated in %s)' % (who, r.violation, cfg),
+                          {'tlc_counterexample': vlib.extract_error_trace(r.out)[-40:], 'facts': f})
+            break
+    r = vlib.model_check(res, SD, 'Monitor', 'Monitor_1x1_nofence.cfg', must_hold=False, deadlock=False)
+    if r.violation != 'NoLostWakeup':
+        raise vlib.HarnessFailure('vacuity control failed: the Monitor model with a buffered releasing store and no notifier-side fence should lose a wake-up under TSO')
+
+
 def run(res, tier, seed):
     exe = vlib.build_harness('h_locks', ['locks/h_locks.cpp'])
+    unlock_fact_check(res, exe)
     tiers = ['quick'] if tier == 'quick' else ['quick', 'thorough']
     res.assumptions += ['x86-TSO hardware; replay is sequentially consistent at schedule-point granularity (one atomic access per step)',
                         'RTM speculative locks run in whatever mode the CPU offers (fall-back expected)',
